@@ -208,8 +208,9 @@ class Verdict:
             "violations": sum(v["count"] for v in unknown.values()),
             "notes": self.notes,
         }
-        os.makedirs(os.path.join(VERIF, "evidence"), exist_ok=True)
-        path = os.path.join(VERIF, "evidence", "%s.json" % self.prop)
+        evdir = os.path.join(VERIF, "evidence") if self.prop.startswith("C") else os.path.join(BUILD, "selftest")
+        os.makedirs(evdir, exist_ok=True)
+        path = os.path.join(evdir, "%s.json" % self.prop)
         tmp = path + ".tmp.%d" % os.getpid()
         with open(tmp, "w") as f:
             json.dump(ev, f, indent=1, default=repr)
